@@ -107,7 +107,7 @@ def observe(s, q, aq, rng, missing):
         pool = single + ["_score"] if nk > 1 and c01_scored(aq) else single
         keys = [[rng.choice(pool), rng.random() < 0.4] for _ in range(nk)]
         grev = rng.random() < 0.25
-        k = 0 if missing else rng.choice([0, 0, 1, 2, 3])
+        k = rng.choice([0, 0, 1, 2, 3])
 
         def f(keys=keys, grev=grev, k=k):
             facets = [sorting.ScoreFacet() if fn == "_score" else sorting.FieldFacet(fn, reverse=rv) for fn, rv in keys]
@@ -147,15 +147,20 @@ def observe(s, q, aq, rng, missing):
         guard("groups:" + fn, g)
     # collapsing (by score ranking)
     if c01_scored(aq):
-        for fn in ("tag", "num"):
-            n = rng.choice([1, 1, 2])
+        for fn in ("tag", "num", "flag"):
+            n = rng.choice([1, 2, 2, 3])
             k = rng.choice([0, 2, 4])
+            # the ranking that is collapsed: by score, or (where every document has the key) by a field
+            sort = [] if missing or rng.random() < 0.5 else [[rng.choice(single), rng.random() < 0.4]]
 
-            def cfn(fn=fn, n=n, k=k):
+            def cfn(fn=fn, n=n, k=k, sort=sort):
                 def mk():
-                    r = s.search(q, limit=k or None, collapse=fn, collapse_limit=n)
-                    return {"kind": "collapse", "path": "collapse=%s limit=%d k=%d" % (fn, n, k), "f": fn, "n": n,
-                            "k": k, "docs": [int(h.docnum) for h in r]}
+                    kw = {}
+                    if sort:
+                        kw["sortedby"] = sorting.FieldFacet(sort[0][0], reverse=sort[0][1])
+                    r = s.search(q, limit=k or None, collapse=fn, collapse_limit=n, **kw)
+                    return {"kind": "collapse", "path": "collapse=%s limit=%d k=%d sortedby=%s" % (fn, n, k, sort),
+                            "f": fn, "n": n, "k": k, "sort": sort, "docs": [int(h.docnum) for h in r]}
                 limited(mk)
             guard("collapse:" + fn, cfn)
         # filter / mask
@@ -238,6 +243,12 @@ def check(run):
         n = rng.randrange(4, 10)
         adocs = dict(("k%d" % i, rand_doc(rng, missing)) for i in range(n))
         plan = world.rand_plan(rng, adocs.keys(), max_segments=3)
+        if missing and wi % 4 == 1:
+            # a segment without any column for the sortable fields: none of its documents has a value
+            commits = [st for st in plan if st[0] == "commit"]
+            for k in rng.choice(commits)[1]:
+                for f in ("num", "tag", "when"):
+                    adocs[k]["k"][f] = []
         ix = build(rng, adocs, plan)
         with ix.searcher(weighting=scoring.Frequency()) as s:
             rd = s.reader()
